@@ -213,7 +213,8 @@ def build_shared_features_map(mod: fx.GraphModule,
     # - a features concatenation that shares its features with a convolutional/linear layer (e.g.
     #   it is summed with the output of a layer, or it feeds a depthwise convolution), since a
     #   single masker cannot be the concatenation of other maskers. In this case also the
-    #   concatenated tensors are fixed.
+    #   concatenated tensors are fixed. The same holds for two concatenations that share their
+    #   features with each other (e.g. the residual sum of two concatenations).
     # - likewise, the tensors concatenated into a network output (or input-connected tensor),
     #   whose features are frozen
     def io_connected(c):
@@ -233,7 +234,8 @@ def build_shared_features_map(mod: fx.GraphModule,
         for c in components:
             concat_nodes = [n for n in c if n.meta['features_concatenate']]
             if any(n in fixed_nodes for n in c) or (concat_nodes and (
-                    io_connected(c) or any(is_inherited_layer(n, mod, layers) for n in c))):
+                    io_connected(c) or len(concat_nodes) > 1 or
+                    any(is_inherited_layer(n, mod, layers) for n in c))):
                 for n in concat_nodes:
                     new_nodes = set([n] + n.all_input_nodes) - fixed_nodes
                     updated = updated or len(new_nodes) > 0
